@@ -12,7 +12,8 @@
     Two variants that keep state between calls are kept for refutation theorems only:
     [walk_stat_cached] (a file is read again only when its Lstat size or modification time
     changed) and [start_listeners_sharing] (listeners of one certificate source share the
-    tls.Config made first). *)
+    tls.Config made first); so is [walk_skipping_empty] (entries of Lstat size 0 are left
+    out of the load instead of being read). *)
 From Coq Require Import String List NArith Bool.
 From Fabio Require Import Lib.Outcome Lib.Bytes Model.CertStore.
 Import ListNotations.
@@ -53,6 +54,26 @@ Fixpoint walk (d : dirstate) (acc : blocks) : option blocks :=
 (* loadPath(root) for an existing root *)
 Definition dir_load (d : dirstate) : load :=
   match walk d [] with None => LoadErr | Some b => Loaded (Some b) end.
+
+(* NOT the code: a walk that leaves out the entries Lstat reports as empty ("an empty
+   placeholder file should not make the whole directory fail to load"): a certificate file
+   that is there with nothing in it - a rewrite caught between truncation and write, a full
+   disk - is not delivered as unusable material any more, it is not delivered at all *)
+Fixpoint walk_skipping_empty (d : dirstate) (acc : blocks) : option blocks :=
+  match d with
+  | [] => Some acc
+  | (p, e) :: r =>
+      if is_dir e then walk_skipping_empty r acc
+      else if negb (pem_name p) then walk_skipping_empty r acc
+      else if max_size <? d_size e then walk_skipping_empty r acc
+      else if d_size e =? 0 then walk_skipping_empty r acc
+      else match d_read e with
+           | None => None
+           | Some f => walk_skipping_empty r (acc ++ [(p, f)])
+           end
+  end.
+Definition dir_load_skipping_empty (d : dirstate) : load :=
+  match walk_skipping_empty d [] with None => LoadErr | Some b => Loaded (Some b) end.
 
 (* NOT the code: a walk that remembers (size, modification time, bytes) per path between
    calls and reads a file again only when Lstat reports another size or time *)
